@@ -118,6 +118,74 @@ def values_params():
     return out
 
 
+def storage_params():
+    out = dict(g_empty='false', g_chars=None, g_key_parent='false', g_file_parent='false', g_delete_validates='false')
+    st = _src('storage.py')
+    fn = _find(st, 'validate_file_path_key')
+    if fn is not None:
+        for n in fn.body:
+            # if not key: raise StorageError
+            if (isinstance(n, ast.If) and isinstance(n.test, ast.UnaryOp) and isinstance(n.test.op, ast.Not)
+                    and isinstance(n.test.operand, ast.Name) and n.test.operand.id == 'key'
+                    and len(n.body) == 1 and isinstance(n.body[0], ast.Raise)):
+                out['g_empty'] = 'true'
+            # disallowed_key_chars = [...]
+            if (isinstance(n, ast.Assign) and len(n.targets) == 1 and isinstance(n.targets[0], ast.Name)
+                    and n.targets[0].id == 'disallowed_key_chars' and isinstance(n.value, ast.List)):
+                chars = []
+                ok = True
+                for e in n.value.elts:
+                    if isinstance(e, ast.Constant) and isinstance(e.value, str) and len(e.value) == 1:
+                        chars.append(ord(e.value))
+                    elif _dump(e) == _dump(ast.parse('os.path.sep').body[0].value):
+                        chars.append(ord('/'))
+                    elif _dump(e) == _dump(ast.parse('os.path.altsep').body[0].value):
+                        pass        # None on POSIX
+                    else:
+                        ok = False
+                if ok:
+                    out['g_chars'] = chars
+            # for char in disallowed_key_chars: if char is not None and char in key: raise
+            if isinstance(n, ast.For) and _dump(n.iter) == _dump(ast.parse('disallowed_key_chars').body[0].value):
+                ifs = [m for m in n.body if isinstance(m, ast.If)]
+                if not (len(ifs) == 1 and len(ifs[0].body) == 1 and isinstance(ifs[0].body[0], ast.Raise)
+                        and 'In()' in _dump(ifs[0].test) and "'key'" in _dump(ifs[0].test)):
+                    out['g_chars'] = None
+            # if key_path.parent != storage_path.resolve(): raise
+            if (isinstance(n, ast.If) and isinstance(n.test, ast.Compare) and isinstance(n.test.ops[0], ast.NotEq)
+                    and _dump(n.test.left) == _dump(ast.parse('key_path.parent').body[0].value)
+                    and _dump(n.test.comparators[0]) == _dump(ast.parse('storage_path.resolve()').body[0].value)
+                    and len(n.body) == 1 and isinstance(n.body[0], ast.Raise)):
+                out['g_key_parent'] = 'true'
+        # key_path must be (storage_path / key).resolve()
+        if _dump(ast.parse('key_path = (storage_path / key).resolve()').body[0]) not in [_dump(n) for n in fn.body]:
+            out['g_key_parent'] = 'false'
+    ktp = _find(st, 'LocalStorage', '_key_to_path')
+    validates = (ktp is not None and len(ktp.body) == 2
+                 and _dump(ktp.body[0]) == _dump(ast.parse('validate_file_path_key(key, storage_path=self._storage_path)').body[0])
+                 and _dump(ktp.body[1]) == _dump(ast.parse('return (self._storage_path / key).resolve()').body[0]))
+    if not validates:
+        out['g_key_parent'] = 'false'
+    fh = _find(st, 'LocalStorage', 'file_handle')
+    if fh is not None:
+        body = [_dump(n) for n in fh.body]
+        has_ktp = _dump(ast.parse('key_path = self._key_to_path(key)').body[0]) in body
+        has_res = _dump(ast.parse('file_path = (key_path / filename).resolve()').body[0]) in body
+        guard = any(isinstance(n, ast.If) and isinstance(n.test, ast.Compare) and isinstance(n.test.ops[0], ast.NotEq)
+                    and _dump(n.test.left) == _dump(ast.parse('file_path.parent').body[0].value)
+                    and _dump(n.test.comparators[0]) == _dump(ast.parse('key_path').body[0].value)
+                    and len(n.body) == 1 and isinstance(n.body[0], ast.Raise) for n in fh.body)
+        opens = _dump(fh.body[-1]) == _dump(ast.parse('return file_path.open(mode=mode)').body[0])
+        if has_ktp and has_res and guard and opens:
+            out['g_file_parent'] = 'true'
+    de = _find(st, 'LocalStorage', 'delete')
+    if de is not None and _dump(ast.parse('key_path = self._key_to_path(key)').body[0]) in [_dump(n) for n in de.body]:
+        rm = [n for n in ast.walk(de) if isinstance(n, ast.Call) and 'rmtree' in _dump(n.func)]
+        if all(_dump(c.args[0]) == _dump(ast.parse('key_path').body[0].value) for c in rm):
+            out['g_delete_validates'] = 'true'
+    return out
+
+
 def render():
     sp = sched_params()
     lines = [
@@ -129,6 +197,14 @@ def render():
     vp = values_params()
     lines += ['Definition deser_mode_src : deser_mode := %(deser)s.' % vp,
               'Definition setstate_mode_src : setstate_mode := %(setstate)s.' % vp]
+    sg = storage_params()
+    chars = sg['g_chars']
+    lines += ['From Coq Require Import NArith List.',
+              'Definition storage_guards_src : storage_guards :=',
+              '  {| g_empty := %s; g_chars := (%s)%%list; g_key_parent := %s; g_file_parent := %s; g_delete_validates := %s |}.' % (
+                  sg['g_empty'] if chars is not None else 'false',
+                  ('nil' if not chars else ' :: '.join(f'{c}%N' for c in chars) + ' :: nil'),
+                  sg['g_key_parent'], sg['g_file_parent'], sg['g_delete_validates'])]
     for extra in EXTRA_RENDERERS:
         lines += extra()
     return '\n'.join(lines) + '\n'
